@@ -33,6 +33,11 @@ def gen_case(prop, sd, idx):
     rng = random.Random('%s-%d-%d' % (prop, sd, idx))
     sig = kc.gen_sig(rng)
     ignore = kc.gen_ignore(rng, sig) if prop in ('C11', 'C17') else ()
+    if prop == 'C10' and idx % 4 == 3:
+        # "some NON-IGNORED parameter": every fourth C10 case carries an ignore specification (own stream, so the
+        # other cases are what they were); the discrimination judgement below already skips ignored items
+        r2 = random.Random('C10-ignore-%d-%d' % (sd, idx))
+        ignore = r2.choice([('**',), ('*',), ('*', '**'), kc.gen_ignore(r2, sig), kc.gen_ignore(r2, sig) + ('**',)])
     if prop == 'C11' and rng.random() < 0.15:
         ignore = (rng.choice([0, 0, 1]),)
     if prop == 'C17' and rng.random() < 0.6:
